@@ -95,7 +95,10 @@ impl InkList {
             let mut names = Vec::new();
 
             for k in self.items.keys() {
-                names.push(k.get_origin_name().unwrap().clone());
+                // An item without an origin (malformed story data) has no name to report.
+                if let Some(origin_name) = k.get_origin_name() {
+                    names.push(origin_name.clone());
+                }
             }
 
             return names;
